@@ -114,7 +114,11 @@ def inferSimple (f : Flags) : Flags :=
 -- `$ref`s inside one schema node, over every schema-bearing keyword (structural)
 mutual
   def refsIn : J → List String
-    | .obj kvs => (match lookup "$ref" kvs with | some (.str r) => if r ≠ "" then [r] else [] | _ => []) ++ refsInFields kvs
+    | .obj kvs =>
+      -- a node that carries a `$ref` is replaced by its target when expanded: its siblings are never visited
+      (match lookup "$ref" kvs with
+       | some (.str r) => if r ≠ "" then [r] else refsInFields kvs
+       | _ => refsInFields kvs)
     | _ => []
   def refsInFields : List (String × J) → List String
     | [] => []
@@ -182,7 +186,7 @@ def classify (fc : Facts) (x : Ext) (root : J) : Nat → List String → J → O
     -- inferFromRef
     if f2.hasRef then
       let r := Doc.refStr s
-      if fc.schemaRefGuard && visited.contains r then .ok (inferSimple f2)
+      if fc.schemaRefGuard && visited.contains r then .ok { hasRef := true }   -- `inherits(&AnalyzedSchema{hasRef: true})`
       else if danglingFrom x root (fuel + 1) [] [r] then .err "unresolved $ref"
       else match resolve x root r with
         | none => .err "unresolved $ref"
